@@ -45,6 +45,11 @@ type caseIn struct {
 	MaxMsg   int64  `json:"max_msg,omitempty"`
 	MaxBody  int64  `json:"max_body,omitempty"`
 	Intent   int    `json:"intent,omitempty"`
+	// liveconc, livegate: GOMAXPROCS while the case runs (0 = drawn from the seed, -1 = unchanged)
+	Procs int `json:"procs,omitempty"`
+	// liveconc: no PUBs interleaved by the consumers (with one P the pooled buffer a held
+	// delivery used is then the very next one handed out)
+	Quiet bool `json:"quiet,omitempty"`
 }
 
 func unb64(s string) []byte {
@@ -534,7 +539,7 @@ var liveFailures = 0
 const maxLiveFailures = 2
 
 func run(in caseIn, name string) {
-	if liveFailures >= maxLiveFailures && (in.Kind == "http" || in.Kind == "live" || in.Kind == "livebig" || in.Kind == "livetmo") {
+	if liveFailures >= maxLiveFailures && (in.Kind == "http" || in.Kind == "live" || in.Kind == "livebig" || in.Kind == "livetmo" || in.Kind == "liveconc" || in.Kind == "livegate") {
 		skipped++
 		return
 	}
@@ -557,6 +562,10 @@ func run(in caseIn, name string) {
 		liveCase(in, name, false)
 	case "livebig":
 		liveCase(in, name, true)
+	case "liveconc":
+		concCase(in, name)
+	case "livegate":
+		gateCase(in, name)
 	default:
 		lib.Fatalf("unknown case kind %q", in.Kind)
 	}
@@ -567,6 +576,8 @@ func main() {
 	nhttp := flag.Int("http", 60, "number of HTTP publish cases")
 	nlive := flag.Int("live", 24, "number of live path cases")
 	nbig := flag.Int("livebig", 3, "number of large-body live path cases")
+	nconc := flag.Int("liveconc", 4, "number of concurrent-delivery cases (slow consumers holding a frame part-way)")
+	ngate := flag.Int("livegate", 4, "number of cases holding a queue write part-way (verif gate in front of a topic's / channel's backend)")
 	ntmo := flag.Int("livetmo", 2, "number of live path cases whose first requeue is the in-flight timeout")
 	big := flag.Int("big", 10, "number of large-body pure cases allowed")
 	seed := flag.Uint64("seed", 1, "seed")
@@ -604,15 +615,15 @@ func main() {
 	// the families are interleaved so that the judge's shards (cut in emission order) carry
 	// similar amounts of large terms
 	kinds := []string{"enc", "enc", "dec", "dec", "round", "round", "frame", "stream", "mpub", "mpub", "mpub"}
-	total := *n + *nhttp + *nlive + *nbig
-	pk, hk, lk, bk := 0, 0, 0, 0
+	total := *n + *nhttp + *nlive + *nbig + *nconc + *ngate
+	pk, hk, lk, bk, ck, gk := 0, 0, 0, 0, 0, 0
 	for i := 0; i < total; i++ {
 		// largest remaining share first (a simple weighted round-robin)
 		type fam struct {
 			done, want int
 			name       string
 		}
-		fams := []fam{{pk, *n, "pure"}, {hk, *nhttp, "http"}, {lk, *nlive, "live"}, {bk, *nbig, "livebig"}}
+		fams := []fam{{pk, *n, "pure"}, {hk, *nhttp, "http"}, {lk, *nlive, "live"}, {bk, *nbig, "livebig"}, {ck, *nconc, "liveconc"}, {gk, *ngate, "livegate"}}
 		best, bestv := -1, 2.0
 		for j, f := range fams {
 			if f.done < f.want {
@@ -633,6 +644,13 @@ func main() {
 		case "live":
 			run(caseIn{Kind: "live", Seed: r.U64()}, fmt.Sprintf("live-%d", lk))
 			lk++
+		case "liveconc":
+			// one P and nothing else on the connections, two Ps, all Ps in turn
+			run(caseIn{Kind: "liveconc", Seed: r.U64(), Procs: []int{1, 2, -1}[ck%3], Quiet: ck%3 == 0}, fmt.Sprintf("liveconc-%d", ck))
+			ck++
+		case "livegate":
+			run(caseIn{Kind: "livegate", Seed: r.U64(), Procs: []int{1, 2, -1}[gk%3]}, fmt.Sprintf("livegate-%d", gk))
+			gk++
 		default:
 			run(caseIn{Kind: "livebig", Seed: r.U64()}, fmt.Sprintf("livebig-%d", bk))
 			bk++
@@ -643,6 +661,8 @@ func main() {
 	}
 	out.Stat("live_cases_skipped_after_failures", skipped)
 	out.Stat("timeout_cases_dropped_inconclusive", inconclusive)
+	out.Stat("deliveries_held_part_way_while_others_were_served", concHeld)
+	out.Stat("queue_writes_held_while_others_were_served", gateHeld)
 	out.Stat("feature_combinations_exercised", len(featSeen))
 	out.Stat("feature_combinations_total", featTotal)
 }
